@@ -280,6 +280,18 @@ def step (s : St) (line : String) : St × String :=
       | some f, some r => report { s with fl := f, rt := r, ratOk := s.fl.cfg.kind != "adam" }
       | _, _ => (s, "bad-op")
     | none => (s, "bad-op")
+  | ["xls", n, inp, st] =>
+    -- direct backtracking line search: inp = t0, x(n), d(n); st = point(n), value, gradient(n) reported by the C++
+    match n.toNat?, (inp.splitOn ",").mapM parseBits, (st.splitOn ",").mapM parseBits with
+    | some n, some ib, some sb =>
+      let iv := ib.map Float.ofBits; let sv := sb.map Float.ofBits
+      if iv.length != 2 * n + 1 || sv.length != 2 * n + 1 then (s, "bad-op") else
+      let o := s.fl.obj
+      let x := (iv.drop 1).take n; let d := iv.drop (n + 1)
+      let r := backtracking o x (o.f x) d (o.grad x) (iv.headD 0)
+      (s, verdict [("point", cmpVec r.point (sv.take n)), ("value", cmpNum r.value.abs r.value ((sv.drop n).headD 0)),
+                   ("g", cmpVec r.gradient (sv.drop (n + 1)))])
+    | _, _, _ => (s, "bad-op")
   | ["xopt", kind, ls, nh] =>
     ({ s with x := { kind := kind, ls := ls.toNat?.getD 2, numHist := nh.toNat?.getD 100, cur := none } }, "ok")
   | [op, st] =>
